@@ -1,16 +1,16 @@
 SPECIFICATION Spec
 CONSTANTS
-  MaxH = 2
+  MaxH = 1
   MaxR = 1
   NN0 = 2
   T100 = 1000
   Facts = {"A", "B"}
   MaxOps = 2
   StartAll = TRUE
+  StartSuf = {TRUE, FALSE}
   EvpAny = FALSE
   WithSetLast = FALSE
   Guard = "before"
 VIEW View
-
-PROPERTIES NeverMovesByVote NeverMovesByCount NeverBackByVote NeverCounted
+PROPERTIES NeverMovesByCount NeverBackByVote NeverToEmbedded NeverToCounted
 CHECK_DEADLOCK FALSE
